@@ -44,5 +44,10 @@ PROP = {
         inst(F, "c09_chain_single_shortcut", Q, "1 source", "M1 documented single-source shortcut", covers=1),
         inst(F, "c09_heap_entry_order", Q, "3 entries, any times", "M2 heap order = reverse reception-time order, consistent with eq", covers=1),
         inst(F, "c09_merge_single_shortcut", Q, "1 source", "documented single-source shortcut", covers=0),
+        inst(F, "c09_chain_nos2_s04", Q, "new_or_single_it with 2 sources [1,1]", "M1 via new_or_single_it: behaves like new() for >= 2 sources", covers=1, timeout=1800),
+        inst(F, "c09_chain_nos2_s05", Q, "new_or_single_it with 2 sources [2,1]", "M1 via new_or_single_it", covers=1, timeout=1800),
+        inst(F, "c09_chain_nos3_s13", Q, "new_or_single_it with 3 sources [1,1,1]", "M1 via new_or_single_it", covers=1, timeout=1800),
+        inst(F, "c09_chain_nos2_s03", T, "new_or_single_it with 2 sources [0,1]", "M1 via new_or_single_it", covers=1, timeout=1800),
+        inst(F, "c09_chain_nos3_s21", T, "new_or_single_it with 3 sources [0,1,2]", "M1 via new_or_single_it", covers=1, timeout=1800),
     ] + SHAPES,
 }
